@@ -62,6 +62,8 @@ type FnCtx struct {
 	curPos        token.Pos
 	writtenNames  map[string]bool // all heap names written in this function (for frame check)
 	conformIface  bool      // conformance job: fc.con is an interface method's contract, `self` is the receiver
+	conformOuter  types.Type // conformance job for a promoted method: the outer (implementing) struct type
+	conformOuterPath []int
 	conformImpl   *Contract // conformance job: the implementation's contract (fc.con is the interface method's contract)
 	prefixOverride string
 	lastRef       string
